@@ -236,12 +236,14 @@ CHECKS["C03"] = {
             "(coordinates 3, occupancy and B 2, tensors 4, cell 3 / 2, matrices 6 / 5 decimals) and identifier, remarks, space group, modifications "
             "and database references unchanged; it is evaluated on every (original, re-read) pair; a second write must reproduce the file byte for "
             "byte; and an independent fixed-column reading of every written file (columns of the format description, written in Coq) must give "
-            "the atoms of the structure. Proved for the writer model's field function: a value that fits its columns is written unchanged and "
-            "padded to the exact width, an empty value is blank. Structures numbered through the serial-number limits are round-tripped at the loose level.",
+            "the atoms of the structure. Proved, for every value and every precision: the text the fixed-point formatter produces for a binary64 value is read back by the "
+            "decimal parser as exactly r / 10^p with r the value rounded half-to-even to p decimals (within half a unit of the last decimal, exact "
+            "for integers), and the digits written for an integer read back as that integer (Proofs/Decimal.v). Proved for the writer model's "
+            "field function: a value that fits its columns is written unchanged and padded to the exact width, an empty value is blank. Structures numbered through the serial-number limits are round-tripped at the loose level.",
     "design_ref": "DESIGN.md section 6 C03",
     "note": "read_pdb (save_pdb s) = round s is not proved as a theorem; both models are tied to the code by correspondence and the specification "
             "is evaluated per structure. The clause 'values that fit the documented ranges pass validation' is decided by C18. Trusted: Coq kernel, extraction, harness generator.",
-    "technique": "Coq writer and reader models with an executable round-trip specification and an independent fixed-column reader; field-function lemmas proved; differential correspondence with the crate",
+    "technique": "Coq proof of the decimal print / parse round trip and of the field function; writer and reader models with an executable round-trip specification and an independent fixed-column reader; differential correspondence with the crate",
 }
 
 NOT_APPLICABLE = []
